@@ -35,7 +35,7 @@ TRUSTED = ["modelled, not verified: http.client.HTTPConnection/HTTPResponse (aut
            "json.loads on the peer's bodies",
            "the scripted peer (harness/peers/scripted_peer.py) and its synchronisation through the socket.connect audit event",
            "CPython reference counting closes the client's socket of a will_close response when the TransportError is dropped"]
-ASSUMPTIONS = ["faults are the 11 symbols of the property's alphabet, one per connection attempt / exchange; statuses of the status symbols are 2xx-5xx other than 200 and not 1xx",
+ASSUMPTIONS = ["faults are the 11 symbols of the property's alphabet, one per connection attempt / exchange; generated statuses: L in 400/404/500/503, N in 500/502/503 (a body without length on a 204/304 is outside the alphabet: there the real outcome of the next call depends on whether the kernel reports EPIPE at send time), B in 204/304; 1xx is never generated (http.client would wait for a second response)",
                "reading: a non-200 reply requires TransportError only if the client reads it (a request answered while http.client refuses to read -- ResponseNotReady after a bodiless status -- counts as the one failing recovery call)",
                "reading: 'healthy then close' is a healthy exchange (not a fault) for the recovery bound",
                "one proxy, sequential calls, one host"]
@@ -150,14 +150,12 @@ class Main(pipeline.Stream):
                     if isinstance(url, str) and url.startswith(peer.host):
                         url = "HOST" + url[len(peer.host):]
                     o = ("terr", url, ex.errcode)
-                    ex = None
                 except ValueError:
                     o = ("exc", "ValueError")
                 except TypeError:
                     o = ("exc", "TypeError")
                 except Exception as ex:      # noqa
                     o = ("exc", type(ex).__name__)
-                    ex = None
                 finally:
                     timer.cancel()
                 if hung:
